@@ -78,6 +78,7 @@ def _cases(tier, seed):
         add(T.datasets_exhaustive([(2, 5), (3, 4), (2, 2, 3)], 3), 3, 4)
         for rows, _ in T.datasets_seeded(rng, 12000, max_groups=5, max_rows=14):
             add([rows], "raw", 2)
+    out += T.integer_score_cases(rng, 100 if tier == "quick" else 1000, 2, len(T.CONFIGS))
     return out
 
 
@@ -128,7 +129,7 @@ def _check(case):
     fp = fingerprint(case)
     n = len(yl)
     replay = {"groups": gl, "labels": yl, "scores": sl, "constraints": constraint, "objective": objective, "flip": flip, "grid_size": gs,
-              "predict_method": enc[0], "container": enc[2], "prefit": enc[3] % 2 == 0, "extra_X_column": enc[4]}
+              "predict_method": enc[0], "container": enc[2], "prefit": enc[3] % 2 == 0, "extra_X_column": enc[4], "score_dtype": enc[5] if len(enc) > 5 else "float64"}
     desc = f"constraints={constraint} objective={objective} flip={flip} grid_size={gs} groups={gl} labels={yl} scores={sl}"
     try:
         to = T.make_optimizer(cfg, enc).fit(X, y, sensitive_features=sf)
